@@ -287,6 +287,16 @@ Theorem c18_casefold_guard_refuted :
     = Ok (s2l "/t/Maps/..\MAPS\secret.txt").
 Proof. exact casefold_guard_refuted. Qed.
 
+(** Round 5: comparisons made on a string under a transformation the guard language has no meaning for (strip, Unicode
+    normalisation, realpath ...) are written down as [SOpaque name x] by the translator and rejected by name: an accepted
+    guard contains none, wherever it stands (so the placeholder meaning of [SOpaque] is never evaluated for one). *)
+Theorem c18_opaque_transformation_never_accepted :
+  (forall g, raise_sound g = true -> gx_plain g = true /\ ok_when false g = true) /\
+  raise_sound guard_strip_eq = false /\
+  (let g := GNot (GAnd (GEq SAbs SRoot) (GEq (SOpaque (s2l "realpath") SAbs) SRoot)) in
+   ok_when false g = true /\ raise_sound g = false).
+Proof. exact opaque_never_accepted. Qed.
+
 (** ------------------------------------------------------------------ whole histories of operations (round 3).
     A history is any list of steps; a step is one access site of the table generated from filesys.py, executed by
     one of any number of RawFileSystem objects (any roots, constrained or not) on arbitrary strings (argument, File
